@@ -11,7 +11,7 @@ class Oracle:
         self.build_s = 0.0
         self.lock = threading.Lock()
 
-    def exe(self): return os.path.join(self.work, 'target', 'debug', 'narsese_oracle')
+    def exe(self): return os.path.join(self.work, 'narsese_oracle')
 
     def build(self):
         import time, fcntl
@@ -32,6 +32,8 @@ class Oracle:
             r = subprocess.run(['cargo', 'build', '--offline'], cwd=src, env=env, capture_output=True, text=True)
             if r.returncode != 0:
                 raise RuntimeError('oracle build failed:\n' + r.stderr[-4000:])
+            shutil.copy(os.path.join(self.work, 'target', 'debug', 'narsese_oracle'), self.exe())
+            shutil.rmtree(os.path.join(self.work, 'target'), ignore_errors=True)
             open(os.path.join(self.work, 'ok'), 'w').write('ok')
         self.build_s = time.time() - t
 
